@@ -51,6 +51,14 @@ def r_reencode_value(ctx, fam=None):
 def run(ctx):
     ctx.explanation = EXPL
     ctx.trusted = ['rustc nightly MIR construction', 'heed cursor put_current/del_current semantics', 'TypeId equality is type equality']
+    rules(ctx)
+
+
+def rules(ctx):
+    """the structural clauses of C18 (re-evaluated by properties whose histories include a metric change)"""
+    if getattr(ctx, '_c18_done', None) is ctx.F:
+        return
+    ctx._c18_done = ctx.F
     F = ctx.F
     f = F.one('writer::Writer::<D>::prepare_changing_distance')
     if not ctx.need(f is not None, 'R-NOOP', 'Writer::prepare_changing_distance'):
